@@ -316,6 +316,10 @@ def gen_emacs(rng, n, history=False, extra=()):
             ks += [rng.choice(["C-v", "C-q"]), rng.choice(["C-j", "a", "Tab", "é"])]
         elif r < 0.93:
             ks += [rng.choice(["C-]", "M-C-]"]), rng.choice(["a", " ", ",", "é"])]
+        elif r < 0.945:
+            # ESC typed on its own, the next key in a later write: still the Meta prefix when there is no key-sequence
+            # timeout (the reader waits), an Escape key of its own when the timeout is 0
+            ks += ["Esc", rng.choice(["f", "b", "d", "Backspace", "u", "l", "c", "2", "-", "<", ">", "y", "a", "Esc"])]
         elif r < 0.97 and history:
             ks.append(rng.choice(EMACS_HIST))
         elif extra:
@@ -493,8 +497,16 @@ def c01_cases(tier, seed):
         binds = []
         if rng.random() < 0.15:
             binds = [("F5", "upcase"), ("C:58,C:45", "insert 71.71")]     # F5, C-x C-e
+        hints = None
+        if rng.random() < 0.2:
+            # a hinter: the line starts with a text some hint extends (blanks at its end included); Right / End / C-f / C-e
+            # complete the hint only with the cursor at the very end
+            base = rng.choice(["ab ", "a  ", "git ", "x", "é "])
+            hints = [base + "cd ef", base.strip() + "zz"]
+            keys = list(base) + [rng.choice(["Left", "C-b", "Left", "M-b", "C-a"]), rng.choice(["Right", "C-f", "Right", "End", "C-e", "M-f"])] + keys
+            initial = None
         cases.append(Case(keys, mode=mode, history=hist, initial=initial, timeout=0 if mode == "vi" else rng.choice(["none", 0]),
-                          prompt=rng.choice(["> ", "", "日> "]), binds=binds,
+                          prompt=rng.choice(["> ", "", "日> "]), binds=binds, hints=hints,
                           printer=rng.random() < 0.2, meta={}))
     return cases
 
